@@ -7,6 +7,24 @@ from ..runtime import run_paths, fresh_runtime, FC
 from ..harness import Inputs, decide, solve_exists, jsonable, to_float_cells
 
 
+def aliases_input(out):
+    """does a returned array share storage with an input / GroupBy state array?"""
+    from ..symarray import A, SymLen
+    stack = [out]
+    while stack:
+        x = stack.pop()
+        if isinstance(x, SymLen):
+            x = x.arr
+        if isinstance(x, A):
+            if x.st.origin is not None:
+                return True
+        elif isinstance(x, (list, tuple)):
+            stack.extend(x)
+        elif hasattr(x, "arr"):
+            stack.append(x.arr)
+    return False
+
+
 class MergedRT:
     def __init__(self):
         self.obligations = []
@@ -57,6 +75,8 @@ def run_generic(E, case, prop, fam, forking=True):
             continue
         for lab, b in fam.bads(case, d, out):
             all_bads.append((lab, b_and(pcz, b)))
+        if aliases_input(out):
+            all_bads.append(("result aliases caller-owned storage", pcz))
         for kind, g, c, where in rt.obligations:
             merged.obligations.append((kind, b_and(pcz, g), c, where))
         merged.pre.extend(rt.pre)
